@@ -1,4 +1,349 @@
-/- helper lemmas for C04 (Chunk) -/
+/- helper lemmas for C04 (Chunk): chunk encoder and chunk decoder -/
 import TinyHttpModel.RespSpec
+import TinyHttpModel.Lemmas.Digits
 namespace TH
+
+/-- wire form of a list of chunks. -/
+def frames (cs : List Bytes) : Bytes := (cs.map chunkFrame).flatten
+
+@[simp] theorem frames_nil : frames [] = [] := rfl
+
+@[simp] theorem frames_cons (c : Bytes) (cs : List Bytes) :
+    frames (c :: cs) = chunkFrame c ++ frames cs := by
+  simp [frames]
+
+theorem frames_append (as bs : List Bytes) : frames (as ++ bs) = frames as ++ frames bs := by
+  simp [frames]
+
+/-! ### the specification `Spec.enchunkAux` in terms of `frames` -/
+
+/-- a short body is one chunk (or none). -/
+theorem enchunkAux_short (fuel : Nat) (b : Bytes) (hf : 1 ≤ fuel) (hb : b.length ≤ chunkSize) :
+    Spec.enchunkAux fuel b = if b = [] then [] else chunkFrame b := by
+  cases fuel with
+  | zero => omega
+  | succ fuel =>
+    cases b with
+    | nil => simp [Spec.enchunkAux]
+    | cons x xs =>
+      have h1 : (x :: xs).take chunkSize = x :: xs := List.take_of_length_le hb
+      have h2 : (x :: xs).drop chunkSize = [] := List.drop_of_length_le hb
+      simp only [Spec.enchunkAux, h1, h2]
+      cases fuel <;> simp [Spec.enchunkAux]
+
+/-- full chunks in front are framed one by one. -/
+theorem enchunkAux_full : ∀ (cs : List Bytes) (fuel : Nat) (b : Bytes),
+    (∀ c ∈ cs, c.length = chunkSize) → cs.length ≤ fuel →
+    Spec.enchunkAux fuel (cs.flatten ++ b) = frames cs ++ Spec.enchunkAux (fuel - cs.length) b := by
+  intro cs
+  induction cs with
+  | nil => intro fuel b _ _; simp
+  | cons c cs ih =>
+    intro fuel b hall hlen
+    cases fuel with
+    | zero => simp at hlen
+    | succ fuel =>
+      have hc : c.length = chunkSize := hall c (by simp)
+      have hne : c ≠ [] := by
+        intro h; rw [h] at hc; simp [chunkSize] at hc
+      have h1 : (c ++ (cs.flatten ++ b)).take chunkSize = c := by
+        rw [← hc]; exact List.take_left
+      have h2 : (c ++ (cs.flatten ++ b)).drop chunkSize = cs.flatten ++ b := by
+        rw [← hc]; exact List.drop_left
+      have hemp : (c ++ (cs.flatten ++ b)).isEmpty = false := by
+        cases c with
+        | nil => exact absurd rfl hne
+        | cons _ _ => rfl
+      simp only [List.flatten_cons, List.append_assoc, Spec.enchunkAux, hemp, h1, h2,
+        frames_cons, List.length_cons, Nat.add_sub_add_right]
+      rw [ih fuel b (fun c' hc' => hall c' (by simp [hc'])) (by simpa using hlen)]
+      simp
+
+/-- every body is cut into non-empty chunks. -/
+theorem enchunkAux_chunks : ∀ (fuel : Nat) (body : Bytes), body.length < fuel →
+    ∃ cs : List Bytes, (∀ c ∈ cs, c ≠ []) ∧ cs.flatten = body ∧
+      Spec.enchunkAux fuel body = frames cs := by
+  intro fuel
+  induction fuel with
+  | zero => intro body h; omega
+  | succ fuel ih =>
+    intro body h
+    cases body with
+    | nil => exact ⟨[], by simp, rfl, by simp [Spec.enchunkAux]⟩
+    | cons x xs =>
+      have hdl : ((x :: xs).drop chunkSize).length < fuel := by
+        simp only [List.length_drop, List.length_cons, chunkSize]
+        simp only [List.length_cons] at h
+        omega
+      obtain ⟨cs, hne, hfl, heq⟩ := ih _ hdl
+      refine ⟨(x :: xs).take chunkSize :: cs, ?_, ?_, ?_⟩
+      · intro c hc
+        simp only [List.mem_cons] at hc
+        cases hc with
+        | inl h => subst h; simp [chunkSize]
+        | inr h => exact hne c h
+      · simp only [List.flatten_cons, hfl]
+        exact List.take_append_drop _ _
+      · simp [Spec.enchunkAux, heq]
+
+/-! ### the encoder -/
+
+theorem Enc.write_nil : ∀ (fuel : Nat) (e : Enc), Enc.write fuel e [] = e := by
+  intro fuel e
+  cases fuel with
+  | zero => rfl
+  | succ fuel => simp [Enc.write]
+
+/-- weak invariant of the encoder state after the bytes `T` have been written. -/
+def EncInv (e : Enc) (T : Bytes) : Prop :=
+  ∃ cs : List Bytes, (∀ c ∈ cs, c.length = chunkSize) ∧ T = cs.flatten ++ e.buf ∧
+    e.out = frames cs ∧ e.buf.length ≤ chunkSize
+
+theorem Enc.write_inv : ∀ (fuel : Nat) (e : Enc) (data T : Bytes),
+    EncInv e T →
+    data.length + (if chunkSize ≤ e.buf.length then 1 else 0) < fuel →
+    EncInv (Enc.write fuel e data) (T ++ data) ∧
+      (data ≠ [] → (Enc.write fuel e data).buf ≠ []) := by
+  intro fuel
+  induction fuel with
+  | zero => intro e data T _ h; omega
+  | succ fuel ih =>
+    intro e data T hinv hfuel
+    obtain ⟨cs, hall, hT, hout, hlen⟩ := hinv
+    simp only [Enc.write]
+    by_cases hov : min (chunkSize - e.buf.length) data.length < data.length
+    · -- overflow: the buffer is filled, sent, and the rest is written
+      rw [if_pos hov]
+      have hmin : min (chunkSize - e.buf.length) data.length = chunkSize - e.buf.length := by
+        omega
+      rw [hmin]
+      have hfull : (e.buf ++ data.take (chunkSize - e.buf.length)).length = chunkSize := by
+        simp only [List.length_append, List.length_take]; omega
+      have hne : e.buf ++ data.take (chunkSize - e.buf.length) ≠ [] := by
+        intro h; rw [h] at hfull; simp [chunkSize] at hfull
+      have hsend : (Enc.mk e.out (e.buf ++ data.take (chunkSize - e.buf.length))).send =
+          ⟨e.out ++ chunkFrame (e.buf ++ data.take (chunkSize - e.buf.length)), []⟩ := by
+        simp only [Enc.send]
+        rw [if_neg]
+        simpa using hne
+      rw [hsend]
+      have hinv' : EncInv ⟨e.out ++ chunkFrame (e.buf ++ data.take (chunkSize - e.buf.length)), []⟩
+          (T ++ data.take (chunkSize - e.buf.length)) := by
+        refine ⟨cs ++ [e.buf ++ data.take (chunkSize - e.buf.length)], ?_, ?_, ?_, ?_⟩
+        · intro c hc
+          simp only [List.mem_append, List.mem_singleton] at hc
+          cases hc with
+          | inl h => exact hall c h
+          | inr h => rw [h]; exact hfull
+        · simp [hT]
+        · simp [frames_append, hout]
+        · simp
+      have hdrop : (data.drop (chunkSize - e.buf.length)).length +
+          (if chunkSize ≤ (Enc.mk (e.out ++ chunkFrame (e.buf ++ data.take (chunkSize - e.buf.length))) []).buf.length
+            then 1 else 0) < fuel := by
+        have : ¬ chunkSize ≤ 0 := by simp [chunkSize]
+        simp only [List.length_drop, List.length_nil, if_neg this]
+        split at hfuel <;> omega
+      have hrec := ih _ (data.drop (chunkSize - e.buf.length)) _ hinv' hdrop
+      rw [List.append_assoc, List.take_append_drop] at hrec
+      refine ⟨hrec.1, fun _ => hrec.2 ?_⟩
+      intro h
+      have := congrArg List.length h
+      simp only [List.length_drop, List.length_nil] at this
+      omega
+    · -- everything fits
+      rw [if_neg hov]
+      have hmin : min (chunkSize - e.buf.length) data.length = data.length := by omega
+      rw [hmin, List.take_length]
+      refine ⟨⟨cs, hall, ?_, hout, ?_⟩, ?_⟩
+      · simp [hT]
+      · simp only [List.length_append]; omega
+      · intro hd; simp [hd]
+
+/-- strong invariant: additionally the buffer is empty only if nothing was written. -/
+def EncInv' (e : Enc) (T : Bytes) : Prop := EncInv e T ∧ (T ≠ [] → e.buf ≠ [])
+
+theorem Enc.fold_inv : ∀ (pieces : List Bytes) (e : Enc) (T : Bytes), EncInv' e T →
+    EncInv' (pieces.foldl (fun e p => Enc.write (p.length + 2) e p) e) (T ++ pieces.flatten) := by
+  intro pieces
+  induction pieces with
+  | nil => intro e T h; simpa using h
+  | cons p ps ih =>
+    intro e T h
+    simp only [List.foldl_cons, List.flatten_cons, ← List.append_assoc]
+    apply ih
+    by_cases hp : p = []
+    · subst hp; simpa [Enc.write_nil] using h
+    · have hfuel : p.length + (if chunkSize ≤ e.buf.length then 1 else 0) < p.length + 2 := by
+        split <;> omega
+      have := Enc.write_inv (p.length + 2) e p T h.1 hfuel
+      exact ⟨this.1, fun _ => this.2 hp⟩
+
+theorem length_le_flatten_full : ∀ (l : List Bytes), (∀ c ∈ l, c.length = chunkSize) →
+    l.length ≤ l.flatten.length := by
+  intro l
+  induction l with
+  | nil => simp
+  | cons c l ih =>
+    intro hl
+    have h1 := hl c (by simp)
+    have h2 := ih (fun c' hc' => hl c' (by simp [hc']))
+    simp only [List.length_cons, List.flatten_cons, List.length_append]
+    simp only [chunkSize] at h1
+    omega
+
+theorem Enc.finish_of_inv (e : Enc) (T : Bytes) (h : EncInv' e T) :
+    e.finish = Spec.enchunk T := by
+  obtain ⟨⟨cs, hall, hT, hout, hlen⟩, hne⟩ := h
+  unfold Enc.finish Spec.enchunk
+  congr 1
+  have hfl := length_le_flatten_full cs hall
+  have hTl : T.length = cs.flatten.length + e.buf.length := by rw [hT, List.length_append]
+  have hcs : cs.length ≤ T.length + 1 := by omega
+  have hfuel : 1 ≤ T.length + 1 - cs.length := by omega
+  have hE := enchunkAux_full cs (T.length + 1) e.buf hall hcs
+  rw [← hT] at hE
+  rw [hE, enchunkAux_short _ _ hfuel hlen, ← hout]
+  unfold Enc.send
+  by_cases hb : e.buf = []
+  · simp [hb]
+  · have : e.buf.isEmpty = false := by simpa using hb
+    simp [hb, this]
+
+/-! ### the client's line splitting on encoder output -/
+
+theorem splitLF_append (l r : Bytes) (h : ∀ b ∈ l, b ≠ 10) :
+    Client.splitLF (l ++ 10 :: r) = some (l, r) := by
+  induction l with
+  | nil => simp [Client.splitLF]
+  | cons b bs ih =>
+    have hb : b ≠ 10 := h b (by simp)
+    simp only [List.cons_append, Client.splitLF, if_neg hb]
+    rw [ih (fun b' hb' => h b' (by simp [hb']))]
+
+theorem stripCR_snoc (l : Bytes) : Client.stripCR (l ++ [13]) = l := by
+  induction l with
+  | nil => simp [Client.stripCR]
+  | cons b bs ih =>
+    cases bs with
+    | nil => simp [Client.stripCR]
+    | cons c cs =>
+      simp only [List.cons_append] at ih ⊢
+      simp only [Client.stripCR, ih]
+
+theorem splitLine_crlf (l r : Bytes) (h : ∀ b ∈ l, b ≠ 10) :
+    Client.splitLine (l ++ crlf ++ r) = some (l, r) := by
+  have : l ++ crlf ++ r = (l ++ [13]) ++ 10 :: r := by simp [crlf]
+  rw [this]
+  unfold Client.splitLine
+  rw [splitLF_append (l ++ [13]) r (by
+    intro b hb
+    simp only [List.mem_append, List.mem_singleton] at hb
+    cases hb with
+    | inl hb => exact h b hb
+    | inr hb => omega)]
+  simp [stripCR_snoc]
+
+theorem splitFirst_none (c : Nat) (l : Bytes) (h : ∀ b ∈ l, b ≠ c) :
+    splitFirst c l = (l, none) := by
+  induction l with
+  | nil => rfl
+  | cons b bs ih =>
+    have hb : b ≠ c := h b (by simp)
+    simp only [splitFirst, if_neg hb]
+    rw [ih (fun b' hb' => h b' (by simp [hb']))]
+
+theorem trimOwsStart_id (l : Bytes) (h : ∀ b ∈ l, Client.isOws b = false) :
+    Client.trimOwsStart l = l := by
+  cases l with
+  | nil => rfl
+  | cons b bs => simp [Client.trimOwsStart, h b (by simp)]
+
+theorem trimOwsEnd_id (l : Bytes) (h : ∀ b ∈ l, Client.isOws b = false) :
+    Client.trimOwsEnd l = l := by
+  induction l with
+  | nil => rfl
+  | cons b bs ih =>
+    have hb := h b (by simp)
+    simp only [Client.trimOwsEnd]
+    rw [ih (fun b' hb' => h b' (by simp [hb']))]
+    cases bs <;> simp [hb]
+
+theorem parseChunkSize_toHex (n : Nat) : Client.parseChunkSize (toHex n) = some n := by
+  have hd := toHex_hexdigits n
+  unfold Client.parseChunkSize
+  rw [splitFirst_none 59 (toHex n) (fun b hb => by have := hd b hb; omega)]
+  have hows : ∀ b ∈ toHex n, Client.isOws b = false := by
+    intro b hb
+    have := hd b hb
+    simp only [Client.isOws, Bool.or_eq_false_iff, beq_eq_false_iff_ne]
+    omega
+  simp only [Client.trimOws]
+  rw [trimOwsStart_id _ hows, trimOwsEnd_id _ hows, ofHex_toHex]
+
+/-- the decoder on the terminal chunk. -/
+theorem dechunk_terminal (fuel : Nat) (rest : Bytes) :
+    Client.dechunk (fuel + 1) (b!"0\r\n\r\n" ++ rest) = some ([], rest) := by
+  show Client.dechunk (fuel + 1) (48 :: 13 :: 10 :: 13 :: 10 :: rest) = some ([], rest)
+  have h1 : Client.splitLine (48 :: 13 :: 10 :: 13 :: 10 :: rest) = some ([48], 13 :: 10 :: rest) := by
+    simp [Client.splitLine, Client.splitLF, Client.stripCR]
+  have h2 : Client.parseChunkSize [48] = some 0 := by decide
+  have h3 : Client.splitLine (13 :: 10 :: rest) = some ([], rest) := by
+    simp [Client.splitLine, Client.splitLF, Client.stripCR]
+  simp only [Client.dechunk, h1, h2, List.length_cons, Client.skipTrailers, h3]
+  simp
+
+/-- the decoder on one non-empty chunk. -/
+theorem dechunk_frame (fuel : Nat) (c tail : Bytes) (hc : c ≠ []) :
+    Client.dechunk (fuel + 1) (chunkFrame c ++ tail) =
+      (Client.dechunk fuel tail).map (fun (p, r) => (c ++ p, r)) := by
+  have h1 : Client.splitLine (chunkFrame c ++ tail) = some (toHex c.length, c ++ crlf ++ tail) := by
+    have : chunkFrame c ++ tail = toHex c.length ++ crlf ++ (c ++ crlf ++ tail) := by
+      simp [chunkFrame]
+    rw [this]
+    exact splitLine_crlf _ _ (fun b hb => by have := toHex_hexdigits _ b hb; omega)
+  obtain ⟨k, hk⟩ : ∃ k, c.length = k + 1 := by
+    cases c with
+    | nil => exact absurd rfl hc
+    | cons x xs => exact ⟨xs.length, rfl⟩
+  have h2 : Client.parseChunkSize (toHex c.length) = some (k + 1) := by
+    rw [parseChunkSize_toHex, hk]
+  have h3 : ¬ (c ++ crlf ++ tail).length < k + 1 + 2 := by
+    simp only [List.length_append, crlf, List.length_cons, List.length_nil]; omega
+  have h4 : (c ++ crlf ++ tail).take (k + 1) = c := by
+    rw [List.append_assoc, ← hk]; exact List.take_left
+  have h5 : (c ++ crlf ++ tail).drop (k + 1) = 13 :: 10 :: tail := by
+    rw [List.append_assoc, ← hk, List.drop_left]; rfl
+  simp only [Client.dechunk, h1, h2, if_neg h3, h4, h5]
+
+theorem dechunk_frames : ∀ (cs : List Bytes) (fuel : Nat) (rest : Bytes),
+    (∀ c ∈ cs, c ≠ []) → cs.length < fuel →
+    Client.dechunk fuel (frames cs ++ b!"0\r\n\r\n" ++ rest) = some (cs.flatten, rest) := by
+  intro cs
+  induction cs with
+  | nil =>
+    intro fuel rest _ hf
+    cases fuel with
+    | zero => simp at hf
+    | succ fuel => simpa using dechunk_terminal fuel rest
+  | cons c cs ih =>
+    intro fuel rest hne hf
+    cases fuel with
+    | zero => simp at hf
+    | succ fuel =>
+      simp only [frames_cons, List.append_assoc]
+      rw [dechunk_frame fuel c _ (hne c (by simp))]
+      have := ih fuel rest (fun c' hc' => hne c' (by simp [hc'])) (by simpa using hf)
+      simp only [List.append_assoc] at this
+      rw [this]
+      simp
+
+theorem length_le_frames (cs : List Bytes) : cs.length ≤ (frames cs).length := by
+  induction cs with
+  | nil => simp
+  | cons c cs ih =>
+    simp only [frames_cons, List.length_cons, List.length_append, chunkFrame, crlf,
+      List.length_nil]
+    omega
+
 end TH
